@@ -245,53 +245,60 @@ func propC04(t *rapid.T) {
 	}
 	// Values / Backward with break after k
 	{
-		k := uint64(rapid.IntRange(0, 3000).Draw(t, "values.take"))
-		i := uint64(0)
-		for v := range roaring.Values(b) {
-			if i >= k {
-				break
+		// a sequence value may be ranged over more than once (each time from the start), also after an early break
+		vseq, bseq := roaring.Values(b), roaring.Backward(b)
+		for pass, k := range []uint64{uint64(rapid.IntRange(0, 3000).Draw(t, "values.take")), uint64(rapid.IntRange(0, 3000).Draw(t, "values.take2"))} {
+			i := uint64(0)
+			for v := range vseq {
+				if i >= k {
+					break
+				}
+				if w := mustSel(m, i); uint64(v) != w {
+					fail("Values (traversal %d of the same sequence): item %d = %d want %d", pass+1, i, v, w)
+				}
+				i++
 			}
-			if w := mustSel(m, i); uint64(v) != w {
-				fail("Values: item %d = %d want %d", i, v, w)
+			if w := min(k, n); i != w {
+				fail("Values (traversal %d of the same sequence): yielded %d items, want %d", pass+1, i, w)
 			}
-			i++
-		}
-		if w := min(k, n); i != w {
-			fail("Values: yielded %d items, want %d", i, w)
-		}
-		i = 0
-		for v := range roaring.Backward(b) {
-			if i >= k {
-				break
+			i = 0
+			for v := range bseq {
+				if i >= k {
+					break
+				}
+				if w := mustSel(m, n-1-i); uint64(v) != w {
+					fail("Backward (traversal %d of the same sequence): item %d = %d want %d", pass+1, i, v, w)
+				}
+				i++
 			}
-			if w := mustSel(m, n-1-i); uint64(v) != w {
-				fail("Backward: item %d = %d want %d", i, v, w)
+			if w := min(k, n); i != w {
+				fail("Backward (traversal %d of the same sequence): yielded %d items, want %d", pass+1, i, w)
 			}
-			i++
-		}
-		if w := min(k, n); i != w {
-			fail("Backward: yielded %d items, want %d", i, w)
 		}
 	}
 	// Ranges: maximal, disjoint, non-adjacent, merged across chunks
 	{
 		ivs := m.Intervals()
 		k := rapid.IntRange(0, len(ivs)+1).Draw(t, "ranges.take")
-		i := 0
-		for s, e := range b.Ranges() {
-			if i >= k {
-				break
+		rseq := b.Ranges()
+		for pass := 0; pass < 2; pass++ {
+			i := 0
+			for s, e := range rseq {
+				if i >= k {
+					break
+				}
+				if i >= len(ivs) {
+					fail("Ranges: extra range [%d,%d) after %d ranges", s, e, len(ivs))
+				}
+				if uint64(s) != ivs[i].Lo || e != ivs[i].Hi+1 {
+					fail("Ranges (traversal %d): range #%d = [%d,%d) want [%d,%d)", pass+1, i, s, e, ivs[i].Lo, ivs[i].Hi+1)
+				}
+				i++
 			}
-			if i >= len(ivs) {
-				fail("Ranges: extra range [%d,%d) after %d ranges", s, e, len(ivs))
+			if w := min(k, len(ivs)); i != w {
+				fail("Ranges (traversal %d): yielded %d ranges, want %d", pass+1, i, w)
 			}
-			if uint64(s) != ivs[i].Lo || e != ivs[i].Hi+1 {
-				fail("Ranges: range #%d = [%d,%d) want [%d,%d)", i, s, e, ivs[i].Lo, ivs[i].Hi+1)
-			}
-			i++
-		}
-		if w := min(k, len(ivs)); i != w {
-			fail("Ranges: yielded %d ranges, want %d", i, w)
+			k = len(ivs) + 1
 		}
 		for j := 1; j < len(ivs); j++ {
 			if ivs[j-1].Hi>>16 != ivs[j-1].Lo>>16 {
